@@ -53,6 +53,19 @@ def vpMixedInf : K × K := (((0:Nat):K), -((1:Nat):K))
 `~np.isfinite(factor)` at that point -/
 def vpMixedSel (nf : Bool) (dx g b : K) : K × K := if nf then vpMixedInf else vpMixed dx g b
 
+/-! ### `UserBC`: the data arrive at call time through `args = {TARGET: value}` -/
+/-- the key of `args` a user-controlled condition reads -/
+inductive UserTarget | virtualPoint | value | derivative
+  deriving DecidableEq, Repr
+
+/-- `UserBC.set_ghost_cells(args={target: v})` and the compiled `_make_user_virtual_point_evaluator`: the value written into
+the ghost cell next to the valid cell `cell` (`virtual_point`: `v` itself; `value`: `2*v - cell`; `derivative`: `dx*v + cell`) -/
+def userGhost (t : UserTarget) (dx v cell : K) : K :=
+  match t with
+  | .virtualPoint => v
+  | .value => ((2:Nat):K) * v - cell
+  | .derivative => dx * v + cell
+
 /-- a Robin coefficient `gamma` as the user can give it: a number or `±inf` -/
 inductive Coef (K : Type) where
   | fin (x : K)
